@@ -140,9 +140,12 @@ class Files:
             p = os.path.join(self.dir, "f%d" % len(self.open))
             with open(p, "wb") as fh:
                 fh.write(data)
-            f = open(p, "rb")
+            f = open(p, "rb") if fs.get("buffered", True) else open(p, "rb", buffering=0)
         else:
             f = io.BytesIO(data)
+        if fs.get("sniff"):
+            # the application looks at the beginning of the file first (buffered read-ahead), then positions it
+            f.read(fs["sniff"])
         f.seek(fs["offset"])
         self.open.append(f)
         return f
